@@ -148,3 +148,236 @@ Ltac dsg :=
   rewrite ?desugar_SAtom, ?desugar_SBreak, ?desugar_SCondBreak, ?desugar_SBlock, ?desugar_SCond,
     ?desugar_SLoop, ?desugar_SDoWhile, ?desugar_SWhile, ?desugar_STimesN, ?desugar_STimesC,
     ?desugar_BNil, ?desugar_BCons, ?desugar_CEnd, ?desugar_CElse, ?desugar_CElif.
+
+Section Atoms.
+  Variable L : lang.
+  Variable fl : flavour.
+
+  Lemma code_atoms_app (c1 c2 : list (finstr L)) t :
+    code_atoms L (c1 ++ c2) t = code_atoms L c1 t ++ code_atoms L c2 (code_after L c1 t).
+  Proof.
+    revert t; induction c1 as [|i c1 IH]; intros; cbn [app code_atoms code_after]; auto.
+    destruct i; cbn [finstr_time]; rewrite IH; reflexivity.
+  Qed.
+
+  Lemma scope_ends_atoms (b : block L) t : code_atoms L (scope_ends L b) t = [].
+  Proof.
+    revert t; induction b as [|s b IH]; intros; cbn [scope_ends code_atoms]; auto.
+    destruct s; auto. destruct a; auto.
+    rewrite code_atoms_app, IH, app_nil_r. clear. revert t; induction ds; intros; cbn; auto.
+  Qed.
+  Lemma jump_over_atoms ve (rest : chain L) t : code_atoms L (jump_over L ve rest) t = [].
+  Proof. destruct rest; reflexivity. Qed.
+
+  (* every original statement, in order, with the time the time pass gives it: unchanged *)
+  Lemma atoms_preserved_all :
+    (forall s g t, code_atoms L (fst (desugar_stmt L fl s g)) t = stmt_atoms L s t) /\
+    (forall b g t, code_atoms L (fst (desugar_stmts L fl b g)) t = block_atoms L b t) /\
+    (forall c ve g t, code_atoms L (fst (desugar_chain L fl ve c g)) t = chain_atoms L c t).
+  Proof.
+    apply sbc_ind; intros; try destruct clobber; dsg; rewrite ?desugar_block_eq; cbn [fst snd];
+      try destruct (zero_test (const_int L count));
+      repeat (rewrite ?code_atoms_app, ?code_after_app, ?scope_ends_atoms, ?scope_ends_after, ?jump_over_atoms,
+                ?jump_over_after, ?app_nil_r; cbn [code_atoms code_after finstr_time app]);
+      rewrite ?H, ?H0, ?(proj1 (times_preserved_all L fl)), ?(proj1 (proj2 (times_preserved_all L fl))), ?app_nil_r;
+      try reflexivity.
+  Qed.
+End Atoms.
+
+Section Labels.
+  Variable L : lang.
+  Variable fl : flavour.
+
+  Definition labels_of (c : list (finstr L)) : list label :=
+    flat_map (fun i => match i with FLabel l => [l] | _ => [] end) c.
+
+  Lemma labels_app c1 c2 : labels_of (c1 ++ c2) = labels_of c1 ++ labels_of c2.
+  Proof. unfold labels_of. apply flat_map_app. Qed.
+
+  Lemma labels_scope_ends (b : block L) : labels_of (scope_ends L b) = [].
+  Proof.
+    induction b as [|s b IH]; cbn [scope_ends]; auto. destruct s; auto. destruct a; auto.
+    rewrite labels_app, IH, app_nil_r. clear. induction ds; cbn; auto.
+  Qed.
+  Lemma labels_jump_over ve (rc : chain L) : labels_of (jump_over L ve rc) = [].
+  Proof. destruct rc; reflexivity. Qed.
+
+  Definition lab_num (l : label) : option nat :=
+    match l with LLoopEnd _ => None | LCondEnd n | LCond n | LTimesZero n | LLoop n => Some n end.
+  Definition lab_ids (l : label) : list nat := match l with LLoopEnd id => [id] | _ => [] end.
+
+  Definition lab_ok (P : nat -> Prop) (ids : list nat) (l : label) : Prop :=
+    match l with
+    | LLoopEnd id => In id ids
+    | LCondEnd n | LCond n | LTimesZero n | LLoop n => P n
+    end.
+
+  Lemma NoDup_app_intro {A} (a b : list A) :
+    NoDup a -> NoDup b -> (forall x, In x a -> In x b -> False) -> NoDup (a ++ b).
+  Proof.
+    induction 1 as [|x a N _ IH]; intros Nb D; cbn; auto.
+    constructor. rewrite in_app_iff. intros [H|H]; [contradiction|]. eapply D; eauto. left; auto.
+    apply IH; auto. intros y Ha Hb. eapply D; eauto. right; auto.
+  Qed.
+  Lemma NoDup_app_inv {A} (a b : list A) :
+    NoDup (a ++ b) -> NoDup a /\ NoDup b /\ (forall x, In x a -> In x b -> False).
+  Proof.
+    induction a as [|x a IH]; cbn; intros H. repeat split; auto. constructor.
+    inversion H; subst. destruct (IH H3) as (Na & Nb & D). rewrite in_app_iff in H2.
+    repeat split; auto. constructor; auto.
+    intros y [->|Ha] Hb; eauto.
+  Qed.
+
+  Definition labs_ok (P : nat -> Prop) (ids : list nat) (c : list (finstr L)) : Prop :=
+    (forall l, In l (labels_of c) -> lab_ok P ids l) /\ (NoDup ids -> NoDup (labels_of c)).
+
+  Lemma labs_ok_nolabel c : labels_of c = [] -> labs_ok (fun _ => False) [] c.
+  Proof. intros E. split; rewrite E. intros l []. constructor. Qed.
+
+  Lemma labs_ok_label l : labs_ok (fun n => lab_num l = Some n) (lab_ids l) [FLabel l].
+  Proof.
+    split; cbn. intros l' [<-|[]]. destruct l; cbn; auto. intros _. repeat constructor. intros [].
+  Qed.
+
+  Lemma labs_ok_app (P1 P2 : nat -> Prop) ids1 ids2 c1 c2 :
+    (forall n, P1 n -> P2 n -> False) ->
+    labs_ok P1 ids1 c1 -> labs_ok P2 ids2 c2 ->
+    labs_ok (fun n => P1 n \/ P2 n) (ids1 ++ ids2) (c1 ++ c2).
+  Proof.
+    intros D [M1 N1] [M2 N2]. split.
+    - intros l H. rewrite labels_app, in_app_iff in H. destruct H as [H|H].
+      + apply M1 in H. destruct l; cbn in *; auto. apply in_or_app; auto.
+      + apply M2 in H. destruct l; cbn in *; auto. apply in_or_app; auto.
+    - intros ND. apply NoDup_app_inv in ND. destruct ND as (Na & Nb & DI).
+      rewrite labels_app. apply NoDup_app_intro; auto.
+      intros l H1 H2. apply M1 in H1. apply M2 in H2. destruct l; cbn in *; eauto.
+  Qed.
+
+  Lemma labs_ok_weaken (P Q : nat -> Prop) ids ids' c :
+    (forall n, P n -> Q n) -> ids = ids' -> labs_ok P ids c -> labs_ok Q ids' c.
+  Proof. intros I <- [M N]. split; auto. intros l H. apply M in H. destruct l; cbn in *; auto. Qed.
+
+  Lemma labs_ok_ext (P : nat -> Prop) ids c c' : labels_of c = labels_of c' -> labs_ok P ids c -> labs_ok P ids c'.
+  Proof. unfold labs_ok. intros <-. auto. Qed.
+
+  Lemma labels_block b g : labels_of (fst (desugar_stmts L fl b g)) = labels_of (fst (desugar_block L fl b g)).
+  Proof. rewrite desugar_block_eq. cbn [fst]. rewrite labels_app, labels_scope_ends, app_nil_r. reflexivity. Qed.
+
+  Ltac some_inv :=
+    repeat match goal with
+           | H : Some _ = Some _ |- _ => inversion H; clear H; subst
+           | H : False |- _ => contradiction
+           | H : None = Some _ |- _ => discriminate H
+           | H : _ \/ _ |- _ => destruct H
+           end.
+  Lemma labs_ok_app' (P1 P2 : nat -> Prop) ids1 ids2 c1 c2 :
+    labs_ok P1 ids1 c1 -> labs_ok P2 ids2 c2 -> (forall n, P1 n -> P2 n -> False) ->
+    labs_ok (fun n => P1 n \/ P2 n) (ids1 ++ ids2) (c1 ++ c2).
+  Proof. intros. apply labs_ok_app; auto. Qed.
+
+  Ltac piece :=
+    first [ apply labs_ok_label
+          | apply labs_ok_nolabel; first [reflexivity | apply labels_jump_over | (destruct (zero_test _); reflexivity)]
+          | eassumption ].
+  Ltac disj := cbn beta; cbn [lab_num]; intros n H1 H2; some_inv; lia.
+  Ltac build := first [ eapply labs_ok_app'; [ piece | build | disj ] | piece ].
+  Ltac fin1 := cbn beta; cbn [lab_num]; intros n H; some_inv; lia.
+  Ltac fin2 := cbn [app lab_ids]; rewrite ?app_nil_r; reflexivity.
+
+  Lemma labels_all :
+    (forall s g, labs_ok (fun n => (g <= n < snd (desugar_stmt L fl s g))%nat) (loop_ids_stmt L s) (fst (desugar_stmt L fl s g))) /\
+    (forall b g, labs_ok (fun n => (g <= n < snd (desugar_stmts L fl b g))%nat) (loop_ids L b) (fst (desugar_stmts L fl b g))) /\
+    (forall c ve g, labs_ok (fun n => (g <= n < snd (desugar_chain L fl ve c g))%nat) (loop_ids_chain L c) (fst (desugar_chain L fl ve c g))).
+  Proof.
+    apply sbc_ind.
+    - intros a g. rewrite desugar_SAtom. eapply labs_ok_weaken; [| |apply labs_ok_nolabel; reflexivity]; [intros n []|reflexivity].
+    - intros id g. rewrite desugar_SBreak. eapply labs_ok_weaken; [| |apply labs_ok_nolabel; reflexivity]; [intros n []|reflexivity].
+    - intros k c id g. rewrite desugar_SCondBreak. eapply labs_ok_weaken; [| |apply labs_ok_nolabel; reflexivity]; [intros n []|reflexivity].
+    - intros b IH g. rewrite desugar_SBlock. rewrite desugar_block_snd.
+      eapply labs_ok_ext; [apply labels_block|]. apply IH.
+    - intros k c b IHb rc IHc g. rewrite desugar_SCond. cbn [fst snd]. rewrite !desugar_block_snd.
+      pose proof (proj1 (proj2 (gensym_mono L fl)) b (S (S g))) as G1.
+      pose proof (proj2 (proj2 (gensym_mono L fl)) rc (LCondEnd g) (snd (desugar_stmts L fl b (S (S g))))) as G2.
+      specialize (IHb (S (S g))). apply (labs_ok_ext _ _ _ _ (labels_block b (S (S g)))) in IHb.
+      specialize (IHc (LCondEnd g) (snd (desugar_stmts L fl b (S (S g))))).
+      change (FCondGoto (negate k) (CExpr c) (LCond (S g)) :: ?x) with ([FCondGoto (negate k) (CExpr c) (LCond (S g))] ++ x).
+      eapply labs_ok_weaken; [| |build]; [fin1|fin2].
+    - (* loop *) intros id b IHb g. rewrite desugar_SLoop. cbn [fst snd]. rewrite !desugar_block_snd.
+      pose proof (proj1 (proj2 (gensym_mono L fl)) b (S g)) as G1.
+      specialize (IHb (S g)). apply (labs_ok_ext _ _ _ _ (labels_block b (S g))) in IHb.
+      change (FLabel (LLoop g) :: ?x ++ [?j; ?e]) with ([FLabel (LLoop g)] ++ x ++ [j] ++ [e]).
+      eapply labs_ok_weaken; [| |build]; [fin1|fin2].
+    - (* while *) intros id c b IHb g. rewrite desugar_SWhile. cbn [fst snd]. rewrite !desugar_block_snd.
+      pose proof (proj1 (proj2 (gensym_mono L fl)) b (S (S g))) as G1.
+      specialize (IHb (S (S g))). apply (labs_ok_ext _ _ _ _ (labels_block b (S (S g)))) in IHb.
+      change (?c0 :: FLabel (LLoop (S g)) :: ?x ++ [?j; ?s; ?e]) with ([c0] ++ [FLabel (LLoop (S g))] ++ x ++ [j] ++ [s] ++ [e]).
+      eapply labs_ok_weaken; [| |build]; [fin1|fin2].
+    - (* do while *) intros id c b IHb g. rewrite desugar_SDoWhile. cbn [fst snd]. rewrite !desugar_block_snd.
+      pose proof (proj1 (proj2 (gensym_mono L fl)) b (S g)) as G1.
+      specialize (IHb (S g)). apply (labs_ok_ext _ _ _ _ (labels_block b (S g))) in IHb.
+      change (FLabel (LLoop g) :: ?x ++ [?j; ?e]) with ([FLabel (LLoop g)] ++ x ++ [j] ++ [e]).
+      eapply labs_ok_weaken; [| |build]; [fin1|fin2].
+    - (* times *) intros id clob count b IHb g. destruct clob as [u|].
+      + rewrite desugar_STimesC. cbn [fst snd]. rewrite !desugar_block_snd.
+        pose proof (proj1 (proj2 (gensym_mono L fl)) b (S (S g))) as G1.
+        specialize (IHb (S (S g))). apply (labs_ok_ext _ _ _ _ (labels_block b (S (S g)))) in IHb.
+        change (?c0 :: ?zt ++ FLabel (LLoop (S g)) :: ?x ++ [?j; ?s; ?e]) with ([c0] ++ zt ++ [FLabel (LLoop (S g))] ++ x ++ [j] ++ [s] ++ [e]).
+        eapply labs_ok_weaken; [| |build]; [fin1|fin2].
+      + rewrite desugar_STimesN. cbn [fst snd]. rewrite !desugar_block_snd.
+        pose proof (proj1 (proj2 (gensym_mono L fl)) b (S (S (S g)))) as G1.
+        specialize (IHb (S (S (S g)))). apply (labs_ok_ext _ _ _ _ (labels_block b (S (S (S g))))) in IHb.
+        change (?d :: ?c0 :: ?zt ++ FLabel (LLoop (S (S g))) :: ?x ++ [?j; ?s; ?se; ?e]) with ([d] ++ [c0] ++ zt ++ [FLabel (LLoop (S (S g)))] ++ x ++ [j] ++ [s] ++ [se] ++ [e]).
+        eapply labs_ok_weaken; [| |build]; [fin1|fin2].
+    - (* BNil *) intros g. rewrite desugar_BNil. eapply labs_ok_weaken; [| |apply labs_ok_nolabel; reflexivity]; [intros n []|reflexivity].
+    - (* BCons *) intros s IHs b IHb g. rewrite desugar_BCons. cbn [fst snd].
+      pose proof (proj1 (gensym_mono L fl) s g) as G1.
+      pose proof (proj1 (proj2 (gensym_mono L fl)) b (snd (desugar_stmt L fl s g))) as G2.
+      specialize (IHs g). specialize (IHb (snd (desugar_stmt L fl s g))).
+      eapply labs_ok_weaken; [| |build]; [fin1|fin2].
+    - (* CEnd *) intros ve g. rewrite desugar_CEnd. eapply labs_ok_weaken; [| |apply labs_ok_nolabel; reflexivity]; [intros n []|reflexivity].
+    - (* CElse *) intros b IH ve g. rewrite desugar_CElse. rewrite desugar_block_snd.
+      eapply labs_ok_ext; [apply labels_block|]. apply IH.
+    - (* CElif *) intros k c b IHb rc IHc ve g. rewrite desugar_CElif. cbn [fst snd]. rewrite !desugar_block_snd.
+      pose proof (proj1 (proj2 (gensym_mono L fl)) b (S g)) as G1.
+      pose proof (proj2 (proj2 (gensym_mono L fl)) rc ve (snd (desugar_stmts L fl b (S g)))) as G2.
+      specialize (IHb (S g)). apply (labs_ok_ext _ _ _ _ (labels_block b (S g))) in IHb.
+      specialize (IHc ve (snd (desugar_stmts L fl b (S g)))).
+      change (?c0 :: ?x) with ([c0] ++ x).
+      eapply labs_ok_weaken; [| |build]; [fin1|fin2].
+  Qed.
+
+  Lemma label_eqb_eq a b : label_eqb a b = true -> a = b.
+  Proof. destruct a, b; cbn; try discriminate; intros H; apply Nat.eqb_eq in H; subst; reflexivity. Qed.
+  Lemma label_eqb_refl a : label_eqb a a = true.
+  Proof. destruct a; cbn; apply Nat.eqb_refl. Qed.
+
+  Lemma find_label_ok (c : list (finstr L)) t :
+    NoDup (labels_of c) ->
+    forall c1 l c2, c = c1 ++ FLabel l :: c2 -> find_label L c t l = Some (code_after L c1 t, c2).
+  Proof.
+    intros ND c1. revert c t ND. induction c1 as [|i c1 IH]; intros c t ND l c2 ->.
+    - cbn [app find_label code_after]. rewrite label_eqb_refl. reflexivity.
+    - cbn [app find_label code_after].
+      assert (IN : In l (labels_of (c1 ++ FLabel l :: c2))).
+      { rewrite labels_app, in_app_iff. right. cbn. auto. }
+      destruct i; try (apply IH; auto; exact ND).
+      cbn [app labels_of flat_map] in ND. inversion ND; subst.
+      destruct (label_eqb l l0) eqn:E.
+      + apply label_eqb_eq in E. subst. contradiction.
+      + apply IH; auto.
+  Qed.
+
+  Lemma nodupb_NoDup l : nodupb l = true -> NoDup l.
+  Proof.
+    induction l as [|x l IH]; cbn; intros H. constructor.
+    apply andb_prop in H. destruct H as [H1 H2]. constructor; auto.
+    intros IN. apply negb_true_iff in H1. rewrite <- not_true_iff_false in H1. apply H1.
+    apply existsb_exists. exists x. split; auto. apply Nat.eqb_refl.
+  Qed.
+
+  Lemma desugar_labels_nodup p : nodupb (loop_ids L p) = true -> NoDup (labels_of (desugar L fl p)).
+  Proof.
+    intros H. unfold desugar. rewrite <- labels_block.
+    apply (proj2 (proj1 (proj2 labels_all) p O)). apply nodupb_NoDup; auto.
+  Qed.
+End Labels.
